@@ -1349,6 +1349,10 @@ int x509_display_text_check(int tag, const uint8_t *d, size_t dlen)
 int x509_display_text_to_der(int tag, const uint8_t *d, size_t dlen, uint8_t **out, size_t *outlen)
 {
 	int ret;
+	// an absent text is not an error: callers write it as an OPTIONAL field
+	if (!d || !dlen) {
+		return 0;
+	}
 	if (x509_display_text_check(tag, d, dlen) != 1) {
 		error_print();
 		return -1;
